@@ -17,13 +17,17 @@ def dec(x, places):
 
 
 def gen_case(rnd, profile="mixed", size="small"):
+    if profile == "boundary":
+        return gen_boundary(rnd)
+    if profile == "compete":
+        return gen_compete(rnd)
     three = rnd.random() < 0.5
     syms = ["BTC", "USD"] + (["ETH"] if three else [])
     pairs = [["BTC", "USD"]] + ([["ETH", "USD"]] if three else [])
     if three and rnd.random() < 0.35:
         pairs.append(["ETH", "BTC"])
     usd_p = rnd.choice([2, 2, 2, 0, 1, 4])
-    btc_p = rnd.choice([0, 2, 4, 8, 8, 3])
+    btc_p = rnd.choice([0, 2, 4, 8, 8, 3]) if profile != "limitpartial" else rnd.choice([0, 0, 1, 2])
     eth_p = rnd.choice([0, 1, 3, 6])
     sym_prec = {"BTC": btc_p, "USD": usd_p}
     if three:
@@ -49,7 +53,9 @@ def gen_case(rnd, profile="mixed", size="small"):
     r = rnd.random()
     if profile == "fees":
         r = 0.5 + r / 2
-    if r < 0.4:
+    if profile == "feeborrow":
+        fee = [rnd.choice(["0.1", "1", "0"]), rnd.choice(["5", "50", "2.5"])]
+    elif r < 0.4:
         fee = None
     else:
         pct = rnd.choice(["0.1", "0.25", "1", "0.5", "2.5", "0", "0.075", "10", "33.3333"])
@@ -57,8 +63,10 @@ def gen_case(rnd, profile="mixed", size="small"):
         fee = [pct, mn]
     # liquidity
     r = rnd.random()
-    if profile in ("liquidity", "limitpartial"):
-        r = 0.3 + 0.7 * r
+    if profile in ("liquidity", "limitpartial", "compete"):
+        r = 0.5 + 0.5 * r
+    if profile == "ample":
+        r = 0.0
     if r < 0.45:
         liq = None
     else:
@@ -67,13 +75,21 @@ def gen_case(rnd, profile="mixed", size="small"):
     # lending
     lend = None
     r = rnd.random()
-    if profile in ("loans", "margin"):
+    if profile in ("loans", "margin", "noprice"):
         r = 0.4 + 0.6 * r
+    if profile == "feeborrow":
+        r = 1.0
+    if profile == "margin":
+        r = 1.0
+    if profile == "ample":
+        r = 0.0
     if r > 0.55:
         def cond():
-            isym = rnd.choice(["USD", "USD", "same"])
+            isym = rnd.choice(["USD", "USD", "same", "same"] + (syms if profile in ("noprice", "loans") else []))
+            if profile == "noprice" and rnd.random() < 0.5:
+                isym = rnd.choice(syms)
             return [isym, rnd.choice(["0", "10", "5", "0.5", "100", "7.3"]),
-                    rnd.choice([0, 64, 1024, 4096, 65536, 1048576]),
+                    rnd.choice([0, 64, 1024, 4096, 65536, 1048576]) if not (profile == "noprice" and rnd.random() < 0.5) else 0,
                     rnd.choice(["0", "0", "0.01", "1", "0.005", "3"]),
                     rnd.choice(["0", "0.1", "0.5", "1", "3", "0.25"])]
         dflt = cond()
@@ -85,7 +101,10 @@ def gen_case(rnd, profile="mixed", size="small"):
                 c = cond()
                 c[0] = s if c[0] == "same" else c[0]
                 conds[s] = c
-        lend = {"quote": "USD", "default": dflt if rnd.random() < 0.85 else None, "conds": conds}
+        lend = {"quote": "USD", "default": dflt if rnd.random() < (0.85 if profile != "feeborrow" else 0.4) else None,
+                "conds": conds}
+        if profile == "feeborrow" and lend["default"] is None:
+            lend["conds"].pop("USD", None)
 
     # initial balances
     initial = {}
@@ -94,7 +113,11 @@ def gen_case(rnd, profile="mixed", size="small"):
         p = sym_prec.get(s, 2)
         if style < 0.08:
             continue                                  # empty account
-        if s == "USD":
+        if profile == "ample":
+            v = 1000000000
+        elif profile == "feeborrow":
+            v = rnd.choice([0, 0, 1, 2, 0.5]) if s == "USD" else rnd.choice([0, 0, 0, 1])
+        elif s == "USD":
             v = rnd.choice([0, 100, 1000, 1000, 10000, 100000, 555.55, 0.01])
         else:
             v = rnd.choice([0, 0, 1, 2, 10, 0.5, 3.25, 100])
@@ -142,6 +165,10 @@ def gen_case(rnd, profile="mixed", size="small"):
         last_price[pi] = F(Decimal(b[5]))
         acts = []
         na = rnd.choice([0, 0, 1, 1, 2, max_actions])
+        if profile == "compete":
+            na = rnd.choice([0, 2, 3, 3])
+        if profile == "margin" and rnd.random() < 0.3:
+            na += 1
         if i < 2 and profile != "noprice":
             na = 0 if len(pairs) > 1 and i < len(pairs) - 1 else na
         for _ in range(na):
@@ -157,6 +184,15 @@ def gen_case(rnd, profile="mixed", size="small"):
                 bp, qp = prec_of(tp)
                 tick = F(1, 10 ** qp)
                 amt = rnd.choice([1, 1, 2, 5, F(1, 2), F(1, 4), F(15, 10), 10, F(1, 10 ** bp), 3, 100])
+                if profile == "ample":
+                    amt = rnd.choice([1, 2, 5, 10, 3, 100])
+                if profile == "feeborrow":
+                    amt = rnd.choice([F(1, 10 ** bp), F(2, 10 ** bp), F(1, 100), 1])
+                    op = rnd.choice(["sell", "sell", "buy"])
+                if profile == "compete":
+                    kind = rnd.choice(["market", "market", "stop", "limit"])
+                    tp = pi
+                    amt = rnd.choice([1, 2, 5, 10, 20, 3])
                 if bp == 0:
                     amt = max(1, int(amt))
                 amount = dec(amt, bp)
@@ -171,7 +207,7 @@ def gen_case(rnd, profile="mixed", size="small"):
                 stop = grid(px + rnd.randint(-3, 3) * max(tick, px / 50)) if kind in ("stop", "stoplimit") else None
                 if rnd.random() < 0.03 and limit is not None:
                     limit = rnd.choice(["0", "-5", limit + "1"])
-                ab = lend is not None and rnd.random() < 0.45
+                ab = lend is not None and rnd.random() < (0.45 if profile != "feeborrow" else 0.9)
                 ar = lend is not None and rnd.random() < 0.45
                 if lend is None and rnd.random() < 0.05:
                     ab = True
@@ -198,4 +234,101 @@ def gen_case(rnd, profile="mixed", size="small"):
             script[str(i)] = acts
     return {"syms": syms, "pairs": pairs, "sym_prec": sym_prec, "pair_info": pair_info, "default_pair": default_pair,
             "fee": fee, "liq": liq, "lend": lend, "initial": initial, "bars": bars, "script": script,
-            "subscribe_first": rnd.random() < 0.3, "profile": profile}
+            "subscribe_first": rnd.random() < 0.3, "profile": profile, "ample": profile == "ample"}
+
+
+def gen_boundary(rnd):
+    """One request whose reservation is known in closed form, with exactly that much available, or one precision
+    unit less (C06's acceptance boundary)."""
+    bp = rnd.choice([0, 2, 4, 8])
+    qp = rnd.choice([0, 1, 2, 4])
+    fee = rnd.choice([None, ["0.25", "0"], ["1", "0.01"], ["0.1", "5"], ["2.5", "0"], ["33.3333", "0"]])
+    kind = rnd.choice(["limit", "stop", "stoplimit", "market"])
+    op = rnd.choice(["buy", "sell"])
+    tick = F(1, 10 ** qp)
+    price = F(rnd.randint(1, 50000), 10 ** qp) if qp else F(rnd.randint(1, 500))
+    amount = F(rnd.randint(1, 50000), 10 ** bp) if bp else F(rnd.randint(1, 50))
+    close = F(rnd.randint(1, 50000), 10 ** qp) if qp else F(rnd.randint(1, 500))
+    est = price if kind != "market" else close
+
+    def rhe(x):
+        sc = x * 10 ** qp
+        f = sc.numerator // sc.denominator
+        r = sc - f
+        z = f if r < F(1, 2) else f + 1 if r > F(1, 2) else (f if f % 2 == 0 else f + 1)
+        return F(z, 10 ** qp)
+
+    def rup(x):
+        sc = x * 10 ** qp
+        f = sc.numerator // sc.denominator
+        return F(f if sc == f else f + 1, 10 ** qp)
+    cost = rhe(amount * est)
+    feev = F(0)
+    if fee is not None and cost != 0:
+        feev = rup(max(cost * F(Decimal(fee[0])) / 100, F(Decimal(fee[1]))))
+    need = {}
+    if op == "buy":
+        if cost + feev > 0:
+            need["USD"] = cost + feev
+    else:
+        need["BTC"] = amount
+        if feev > cost:
+            need["USD"] = feev - cost
+    short = rnd.random() < 0.5
+    initial = {"BTC": dec(need.get("BTC", 0), bp), "USD": dec(need.get("USD", 0), qp)}
+    if short and need:
+        s = rnd.choice(sorted(need))
+        unit = F(1, 10 ** (bp if s == "BTC" else qp))
+        initial[s] = dec(need[s] - unit, bp if s == "BTC" else qp)
+    elif not short and rnd.random() < 0.3:
+        initial["USD"] = dec(need.get("USD", 0) + rnd.randint(0, 3) * tick, qp)
+    bars = [[0, 60, dec(close, qp), dec(close, qp), dec(close, qp), dec(close, qp), "10"],
+            [0, 120, dec(close, qp), dec(close + tick, qp), dec(close, qp), dec(close, qp), "10"]]
+    limit = dec(price, qp) if kind in ("limit", "stoplimit") else None
+    stop = dec(price, qp) if kind in ("stop", "stoplimit") else None
+    script = {"0": [["create", kind, op, 0, dec(amount, bp), limit, stop, False, False]]}
+    return {"syms": ["BTC", "USD"], "pairs": [["BTC", "USD"]], "sym_prec": {"BTC": bp, "USD": qp}, "pair_info": {},
+            "default_pair": None, "fee": fee, "liq": rnd.choice([None, ["25", "0"]]), "lend": None, "initial": initial,
+            "bars": bars, "script": script, "subscribe_first": False, "profile": "boundary", "ample": False,
+            "boundary_short": short}
+
+
+def gen_compete(rnd):
+    """Several fill-or-kill orders competing for one bar's liquidity and for the same funds."""
+    bp = rnd.choice([0, 0, 2])
+    qp = 2
+    L = rnd.choice([100, 100, 50, 10])
+    pct = rnd.choice(["25", "50", "10"])
+    vol = F(L * 100) / F(Decimal(pct))
+    fee = rnd.choice([None, None, ["0.5", "0"], ["1", "1"]])
+    liq = [pct, rnd.choice(["0", "10", "0"])]
+    price = F(rnd.choice([30, 35, 100, 12]))
+    initial = {"USD": dec(price * L * rnd.choice([F(1, 5), F(1, 2), F(3, 10), 2]), qp),
+               "BTC": dec(rnd.choice([0, 0, L // 2, L]), bp)}
+    nb = rnd.randint(2, 6)
+    bars = []
+    cur = price
+    for k in range(nb):
+        o = cur + rnd.randint(-2, 2)
+        c = o + rnd.randint(-2, 2)
+        h = max(o, c) + rnd.randint(0, 5)
+        lo = max(F(1), min(o, c) - rnd.randint(0, 5))
+        v = vol if rnd.random() < 0.8 else vol / 4
+        bars.append([0, 60 * (k + 1), dec(o, qp), dec(h, qp), dec(lo, qp), dec(c, qp), str(Decimal(v.numerator) / Decimal(v.denominator))])
+        cur = c if rnd.random() < 0.7 else c * rnd.choice([2, 3])
+    script = {}
+    pre = []
+    for i in range(nb - 1):
+        acts = []
+        for _ in range(rnd.choice([2, 3, 3, 4])):
+            kind = rnd.choice(["market", "market", "market", "stop", "limit"])
+            op = rnd.choice(["buy", "buy", "sell"])
+            amt = max(1, int(L * rnd.choice([F(9, 10), F(1, 5), F(1, 2), F(3, 5), F(3, 10), 1, F(1, 10)])))
+            px = F(Decimal(bars[i][5]))
+            limit = dec(px + rnd.randint(-3, 3), qp) if kind == "limit" else None
+            stop = dec(px + rnd.randint(-3, 3), qp) if kind == "stop" else None
+            acts.append(["create", kind, op, 0, dec(amt, bp), limit, stop, False, False])
+        script[str(i)] = acts
+    return {"syms": ["BTC", "USD"], "pairs": [["BTC", "USD"]], "sym_prec": {"BTC": bp, "USD": qp}, "pair_info": {},
+            "default_pair": None, "fee": fee, "liq": liq, "lend": None, "initial": initial, "bars": bars,
+            "script": script, "subscribe_first": False, "profile": "compete", "ample": False}
